@@ -232,7 +232,7 @@ type expect struct {
 
 func replayB(idx int, it bItem, out *bOut) {
 	full := append(append([]bop{}, it.setup...), it.hist...)
-	replay := map[string]any{"part": "B", "setup": bHistStr(it.setup), "history": bHistStr(it.hist), "named_rooms": it.nrooms}
+	replay := map[string]any{"part": "B", "setup": bHistStr(it.setup), "history": bHistStr(it.hist), "named_rooms": it.nrooms, "setup_ops": it.setup, "ops": it.hist}
 	seenKey := map[string]bool{}
 	viol := func(key, detail string) {
 		if seenKey[key] {
